@@ -36,15 +36,36 @@ struct Hist {
 
   double lim(const GroupVT* vt) const { return vt->is_float ? 1e4 : 1e6; }
   double eps_mach(const GroupVT* vt) const { return vt->is_float ? 1.1920929e-07 : 2.220446049250313e-16; }
-  // Round-trip tolerances, fixed a priori (DESIGN 4.5): the worst legitimate amplification of rounding
-  // error is eps_mach / sqrt(Constants::eps), reached just above the small-angle switch-over
-  // (1.5e-9 in double, 3.5e-5 in float).  Rotation parts: quaternion/complex distance <= 0.25 x that
-  // (3.7e-10 / 8.6e-6, i.e. ||R'-R||_F <= ~1e-9 in double); translation-like parts: 67 x that
-  // (1e-7 / 2.3e-3) relative to (1+L)^2, L the largest translation-like coefficient, because
-  // SGal(3) mixes velocity x time into position.
+  // Round-trip tolerances, fixed a priori from conditioning (DESIGN 4.5), with a = eps_mach / sqrt(Constants::eps)
+  // (1.5e-9 double, 3.5e-5 float): just above the small-angle switch-over (theta ~ sqrt(eps)) the coefficient
+  // (1-cos theta)/theta^2 of V and V^-1 carries an absolute error eps_mach/theta^2, i.e. a/2 relative to the
+  // translation it multiplies, in log and again in exp: legitimate error <= ~a*L.  Near theta = pi the term
+  // (1+cos theta)/(2 theta sin theta) of V^-1 cancels: legitimate error up to ~10 a*L for pi-theta ~ 1e-8.
+  //   rotation parts : quaternion / complex distance <= 0.25 a   (3.7e-10, i.e. ||R'-R||_F <~ 1e-9; float 8.6e-6)
+  //   translation    : <= 8 a * s   away from pi,   67 a * s within 1e-4 of pi      (1.2e-8 s / 1e-7 s; float 2.8e-4 s / 2.3e-3 s)
+  //   s = 1+L, L = largest translation-like coefficient; (1+L)^2 for groups that multiply two of them (SGal3: v*t).
   double amp(const GroupVT* vt) const { return eps_mach(vt) / std::sqrt(vt->eps); }
   double tol_rot(const GroupVT* vt) const { return 0.25 * amp(vt); }
-  double tol_lin(const GroupVT* vt, double scale) const { return 67.0 * amp(vt) * scale; }
+  //   input conditioning: a valid element may be off the unit sphere by delta < eps; an implementation that reads
+  //   cos / sin from the stored coefficients (SE2::log does) turns that into a relative translation error
+  //   delta/theta, so 2*delta/theta of the element under test is added to the allowance (it vanishes for
+  //   normalised data, where the tight bound applies).
+  double tol_lin(const GroupVT* vt, double L, bool near_pi, double input_allowance) const {
+    const double s = (vt->caps & CAP_CROSS) ? (1 + L) * (1 + L) : (1 + L);
+    return ((near_pi ? 67.0 : 8.0) * amp(vt) + input_allowance) * s;
+  }
+  // 2 * max_k |norm(unit block k) - 1| / angle_k   (angle from the logarithm's k-th angular block)
+  double input_allowance(const GroupVT* vt, const double* x, const double* logx) const {
+    double al = 0;
+    for (int k = 0; k < vt->n_unit && k < vt->n_ang; ++k) {
+      const double delta = std::fabs(block_norm(x, vt->unit[k]) - 1.0);
+      const double theta = block_norm(logx, vt->ang[k]);
+      if (delta <= 4 * eps_mach(vt)) continue;          // normalised to working precision
+      const double a = theta > 0 ? 2 * delta / theta : 1.0;
+      if (a > al) al = a;
+    }
+    return std::min(al, 1.0);
+  }
 
   std::string cls(const char* oracle, const GroupVT* vt, int op) const {
     std::ostringstream s;
@@ -130,18 +151,19 @@ struct Hist {
   }
 
   // ---- C03 invariants ---------------------------------------------------------------------------
+  double lin_mag_elem(const GroupVT* vt, const double* c) const { return check_validity(vt, c).max_lin; }
   double lin_scale_elem(const GroupVT* vt, const double* c) const {
     double L = check_validity(vt, c).max_lin;
-    return (1 + L) * (1 + L);
+    return (vt->caps & CAP_CROSS) ? (1 + L) * (1 + L) : (1 + L);
   }
-  double lin_scale_tan(const GroupVT* vt, const double* t) const {
+  double lin_mag_tan(const GroupVT* vt, const double* t) const {
     double L = 0;
     for (int i = 0; i < vt->dof; ++i) {
       bool ang = false;
       for (int k = 0; k < vt->n_ang; ++k) if (i >= vt->ang[k].off && i < vt->ang[k].off + vt->ang[k].len) ang = true;
       if (!ang && std::fabs(t[i]) > L) L = std::fabs(t[i]);
     }
-    return (1 + L) * (1 + L);
+    return L;
   }
   static double block_norm(const double* v, const Block& b) {
     long double s = 0; for (int i = 0; i < b.len; ++i) s += (long double)v[b.off + i] * v[b.off + i];
@@ -203,8 +225,10 @@ struct Hist {
       return false;
     }
     const double em = eps_mach(vt);
+    bool near_pi = false;
     for (int k = 0; k < vt->n_ang; ++k) {
       double a = block_norm(lo.v, vt->ang[k]);
+      if (a > M_PI - 1e-4) near_pi = true;
       if (a > M_PI - 1e-6) res.add("p.log_angle_near_pi", 1);
       if (a > M_PI * (1 + 4 * em)) {
         std::ostringstream s; s.precision(17);
@@ -224,7 +248,7 @@ struct Hist {
     }
     double drot, dlin; elem_dist(vt, x, eo.v, drot, dlin);
     const double tol_rot = this->tol_rot(vt);
-    const double tol_lin = this->tol_lin(vt, lin_scale_elem(vt, x));
+    const double tol_lin = this->tol_lin(vt, lin_mag_elem(vt, x), near_pi, input_allowance(vt, x, lo.v));
     res.setmax(vt->is_float ? "max_roundtrip_rot_float" : "max_roundtrip_rot_double", drot);
     res.setmax(vt->is_float ? "max_roundtrip_lin_rel_float" : "max_roundtrip_lin_rel_double", dlin / lin_scale_elem(vt, x));
     if (!(drot <= tol_rot) || !(dlin <= tol_lin)) {
@@ -279,7 +303,8 @@ struct Hist {
       if (ang) { if (!(d <= dang)) dang = d; } else { if (!(d <= dlin)) dlin = d; }
     }
     const double tol_ang = 2 * this->tol_rot(vt);
-    const double tol_lin = this->tol_lin(vt, lin_scale_tan(vt, t));
+    double xe[32]; vt->get_elem(gc.st, eslot, 0, xe);
+    const double tol_lin = this->tol_lin(vt, lin_mag_tan(vt, t), false, input_allowance(vt, xe, t));
     if (!(dang <= tol_ang) || !(dlin <= tol_lin)) {
       std::ostringstream s; s.precision(17);
       s << "log(exp t) != t for " << vt->name << " t=" << vec_str(t, vt->dof) << " log(exp t)=" << vec_str(lo.v, lo.nv)
